@@ -839,6 +839,7 @@ KINDS = {
 }
 SINGLETONS = {"blake_singleton", "blake2_singleton", "keccak_singleton", "tlsh_singleton", "crc"}
 _KNAMES = sorted(KINDS)
+_KNAMES_NS = [k for k in sorted(KINDS) if k not in SINGLETONS]
 _KW = [KINDS[k][0] for k in _KNAMES]
 
 
@@ -889,7 +890,124 @@ def all_fault_bigrams():
 _FB = all_fault_bigrams()
 
 
-def _twin(rng, pb, n0, n1, o, info):
+def _other(rng, cur, choices):
+    c = [x for x in choices if x != cur]
+    return rng.choice(c) if c else cur
+
+
+def _cz_sha2(rng, rec, info):
+    rec["size"] = _other(rng, rec["size"], [224, 256, 384, 512])
+    rec.pop("t", None)
+    info["bb"], info["w"] = (64, 4) if rec["size"] <= 256 else (128, 8)
+
+
+def _cz_size(sizes):
+    def f(rng, rec, info):
+        rec["size"] = _other(rng, rec["size"], sizes)
+        if "bb" in info and "w" in info:
+            info["bb"], info["w"] = (64, 4) if rec["size"] <= 256 else (128, 8)
+    return f
+
+
+def _cz_sha3(rng, rec, info):
+    rec["size"] = _other(rng, rec["size"], [224, 256, 384, 512])
+    info["r"] = 1600 - 2 * rec["size"]
+    info["bb"] = info["r"] // 8
+
+
+def _cz_keccak(rng, rec, info):
+    b = rec["b"]
+    if rng.random() < 0.5:
+        rec["len"] = _other(rng, rec["len"], [16, 64, 128, 224, 256, 512])
+    else:
+        c = _other(rng, rec["c"], [x for x in (8, 16, 24, 40, 64, 72, 128, 144, 256, 448, 512, 576, 1024) if x < b and b - x <= 1536])
+        rec["c"] = c
+        info["r"] = b - c
+        info["bb"] = max(1, info["r"] // 8)
+
+
+def _cz_md6(rng, rec, info):
+    if rng.random() < 0.5:
+        rec["d"] = _other(rng, rec.get("d", 512), [128, 160, 256])
+    else:
+        rec["L"] = _other(rng, rec.get("L", 0), [0, 1, 64])
+
+
+def _cz_skein(rng, rec, info):
+    v = rng.random()
+    if v < 0.5:
+        rec["Nb"] = _other(rng, rec["Nb"], [256, 512, 1024])
+        info["nb"] = info["bb"] = rec["Nb"] // 8
+    elif v < 0.8:
+        rec["No"] = _other(rng, rec["No"], [128, 256, 512, 100])
+    elif "key" in rec:
+        del rec["key"]
+    else:
+        rec["key"] = B(rbytes(rng, 16))
+
+
+def _cz_ubi(rng, rec, info):
+    rec["type"] = _other(rng, rec.get("type", "msg"), ["msg", "cfg", "key", "out", "prs"])
+
+
+def _cz_tlsh(rng, rec, info):
+    v = rng.random()
+    if v < 0.4:
+        rec["buckets"] = _other(rng, rec["buckets"], [128, 256, 48])
+    elif v < 0.7:
+        rec["wnd"] = _other(rng, rec.get("wnd", 5), [4, 5, 6, 7, 8])
+    else:
+        rec["chk"] = _other(rng, rec.get("chk", 1), [1, 3])
+
+
+def _cz_nilsimsa(rng, rec, info):
+    rec["target"] = _other(rng, rec.get("target", 53), [53, 17, 101])
+
+
+def _cz_rounds(rng, rec, info):
+    if rng.random() < 0.7:
+        rec["rounds"] = _other(rng, rec["rounds"], [2, 4, 8, 12])
+    else:
+        ks = 128 if rec["key"]["bits"][1] == 256 else 256
+        rec["key"] = {"bits": [rec["key"]["bits"][0] & ((1 << ks) - 1), ks]}
+
+
+def _cz_mode(rng, rec, info):
+    v = rng.random()
+    if v < 0.5 and rec["kind"] in ("ECB", "CBC"):
+        cur = rec.get("pad", "pkcs7")
+        rec["pad"] = _other(rng, cur, ["pkcs7", "X923", "bitpadding"] if cur != "nopadding" else ["nopadding"])
+        info["pad"] = rec["pad"]
+    elif "iv" in rec:
+        iv = bytes.fromhex(rec["iv"]["b"])
+        rec["iv"] = B(bytes([iv[0] ^ 1]) + iv[1:]) if iv else rec["iv"]
+    elif isinstance(rec.get("counter"), dict) and "b" in rec["counter"]:
+        cv = bytes.fromhex(rec["counter"]["b"])
+        rec["counter"] = B(bytes([cv[0] ^ 1]) + cv[1:]) if cv else rec["counter"]
+
+
+def _cz_threefish(rng, rec, info):
+    t = bytes.fromhex(rec["tweak"]["b"])
+    rec["tweak"] = B(bytes([t[0] ^ 1]) + t[1:])
+
+
+def _cz_aes(rng, rec, info):
+    k = bytes.fromhex(rec["key"]["b"])
+    n = _other(rng, len(k), [16, 24, 32])
+    rec["key"] = B((k + k)[:n])
+
+
+COUSIN = {
+    "SHA1": lambda rng, rec, info: rec.__setitem__("version", 1 - rec.get("version", 1)),
+    "SHA2": _cz_sha2, "SHA3": _cz_sha3, "Keccak": _cz_keccak, "MD6": _cz_md6,
+    "Blake": _cz_size([224, 256, 384, 512]), "Blake2": _cz_size([256, 512]),
+    "Skein": _cz_skein, "UBI": _cz_ubi, "TLSH": _cz_tlsh, "Nilsimsa": _cz_nilsimsa,
+    "Salsa20": _cz_rounds, "Chacha": _cz_rounds, "ECB": _cz_mode, "CBC": _cz_mode, "CTR": _cz_mode,
+    "Threefish": _cz_threefish, "AES": _cz_aes,
+}
+
+
+def _twin(rng, pb, n0, n1, o, info, keep_key=False):
     """Append a copy of objects n0..n1-1 with only the key material replaced; return the index of
     the copy of object o and a matching info dict."""
     import copy
@@ -903,7 +1021,7 @@ def _twin(rng, pb, n0, n1, o, info):
         return v
     for i in range(n0, n1):
         rec = sh(copy.deepcopy(pb.plan["objects"][i]))
-        k = rec.get("key")
+        k = rec.get("key") if not keep_key else None
         if isinstance(k, dict) and "b" in k and len(k["b"]) > 0:
             rec["key"] = B(rbytes(rng, len(k["b"]) // 2))
         elif isinstance(k, dict) and "bits" in k:
@@ -952,6 +1070,10 @@ class C10(Machine):
             # collaborator, checked op c right after it on the same object)
             fsteer = _FB[(idx // 5) % len(_FB)]
             kind = fsteer[0]
+        elif mode == 3:
+            # steered sibling run: a twin/cousin of the main object makes a checked call first,
+            # then the main object makes the same kind of call on the same message
+            kind = _KNAMES_NS[(idx // 5) % len(_KNAMES_NS)]
         else:
             kind = rng.choices(_KNAMES, _KW)[0]
         fsteer = fsteer if mode == 2 else None
@@ -978,10 +1100,19 @@ class C10(Machine):
         # *twin*: the same recipe (same IV/counter/options, same message pool) with only the key
         # replaced, so that anything cached per class and keyed on too little shows.
         sib = None
-        if rng.random() < 0.6 and kind not in ("crc",):
-            if rng.random() < 0.5 and kind not in SINGLETONS:
+        if (rng.random() < 0.6 or mode == 3) and kind not in ("crc",):
+            v = rng.random() if mode != 3 else rng.random() * 0.7
+            if v < 0.35 and kind not in SINGLETONS:
                 so, sinfo = _twin(rng, pb, n0, n1, o, info)
-                pb.plan["meta"]["twin"] = True
+                pb.plan["meta"]["twin"] = "key"
+            elif v < 0.7 and kind in COUSIN:
+                # a *cousin*: the same recipe with exactly one configuration field changed (and
+                # the same message pool), so that anything cached per class/module and keyed on
+                # an incomplete description of the configuration shows
+                so, sinfo = _twin(rng, pb, n0, n1, o, info, keep_key=True)
+                sinfo = dict(sinfo)
+                COUSIN[kind](rng, pb.plan["objects"][so], sinfo)
+                pb.plan["meta"]["twin"] = "cousin"
             else:
                 so, sinfo = mk(rng, pb, False)
             sib = Ctx(rng, pb, kind, so, sinfo)
@@ -1018,6 +1149,15 @@ class C10(Machine):
                 if n:
                     emit(x, c0, n)
             emit(x, c0, steer[3])
+        elif mode == 3 and sib is not None:
+            pool = x.pool
+            one = [pool[rng.randrange(len(pool))]]
+            x.pool = sib.pool = one
+            n = rng.choice(chk_names)
+            for _ in range(rng.choice([1, 1, 2])):
+                emit(sib, c0, n)
+            emit(x, c0, n)
+            x.pool = sib.pool = pool
         elif fsteer is not None:
             before = len(pb.clients[c0])
             emit(x, c0, fsteer[1])
